@@ -30,6 +30,10 @@ RULE += (" Added after the white-box review: "
          "dictionary with extra keys, stream count as numpy integer, "
          "never-configured object, attributes assigned between two "
          "runs ")
+RULE += (" Added after the second white-box review: the earlier run of a "
+         "re-used object may have another antenna count per user (N+1 or "
+         "N-1); the metric may be configured between the two runs (run - "
+         "configure - run); the reported stream counts must be integers. ")
 
 LEVEL_TEXT = ("Generated-input search (Hypothesis, seeded, sharded) over user "
               "layouts, channels with controlled conditioning, powers, noise, "
@@ -141,6 +145,7 @@ def _extint_cases(draw, tier):
                 # the SAME BD object and the SAME channel object were used
                 # before with another channel realisation
                 reuse=draw(st.sampled_from([None, None, "init", "randomize"])),
+                warm_N=draw(st.sampled_from([None, None, "plus", "minus"])),
                 abs_exp=draw(st.sampled_from([0, 0, 0, -14, -12, -9, -6])))
     if variant == "enhanced":
         metric = draw(st.sampled_from(_METRICS + ["fixed", "capacity"]))
@@ -151,6 +156,10 @@ def _extint_cases(draw, tier):
                 [None, None] + [x for x in range(1, N + 1)]))
         case["union_dict"] = draw(st.sampled_from([False, False, True]))
         case["unconfigured"] = draw(st.booleans())
+        # (history) the earlier run used another antenna count, and/or the
+        # metric was (re)configured BETWEEN the two runs
+        case["warm_N"] = draw(st.sampled_from([None, None, "plus", "minus"]))
+        case["cfg_between"] = draw(st.booleans())
         case["prev_metric"] = draw(st.sampled_from(
             [None, None, None, "capacity", "effective_throughput", "naive",
              "fixed", "None"]))
@@ -424,6 +433,31 @@ def _check_extint(case, ctx):
         obj.iPu = iPu
         obj.noise_var = noise
         obj.pe = pe
+    ext_arg = ext if isinstance(ext, int) else list(ext)
+    warmed = []
+
+    def warm_run(salt, ns_cap=None):
+        """the SAME BD object and channel object serve another realisation
+        (optionally with another antenna count per user)"""
+        Nw = N
+        wn = case.get("warm_N")
+        if wn == "plus":
+            Nw = N + 1
+        elif wn == "minus" and N >= 2 and (ns_cap is None or ns_cap < N):
+            Nw = N - 1
+        if Nw != N:
+            ctx.label("reuse:other_antenna_count_before")
+        Nrw = np.ones(K, dtype=int) * Nw
+        if case["reuse"] == "randomize":
+            mu.randomize(Nrw, Nrw.copy(), K, ext_arg)
+        else:
+            warm = _randc(np.random.RandomState(case["ext_seed"] + 1 + salt),
+                          K * Nw, K * Nw + r_tot)
+            mu.init_from_channel_matrix(warm, Nrw, Nrw.copy(), K, ext_arg)
+        with np.errstate(all="ignore"):
+            obj.block_diagonalize_no_waterfilling(mu)
+        warmed.append(Nw)
+
     if variant != "whitening":
         prev = case.get("prev_metric")
         if prev is not None:
@@ -438,6 +472,11 @@ def _check_extint(case, ctx):
                            "packet_length": 60})
             else:
                 obj.set_ext_int_handling_metric(prev)
+            if case.get("reuse") and case.get("cfg_between"):
+                # run - configure - run on one object (a sweep over metrics
+                # or stream counts)
+                ctx.label("metric_configured_between_runs")
+                warm_run(7, ns_cap=1 if prev in ("naive", "fixed") else None)
         if metric in ("naive", "fixed"):
             cfg_dict = {"num_streams": int(case["num_streams"])}
             if case["chan"]["seed"] % 5 == 1:
@@ -483,15 +522,9 @@ def _check_extint(case, ctx):
         # history: both objects already served another channel realisation;
         # the result for the CURRENT channel must not depend on that
         ctx.label("reuse:" + case["reuse"])
-        ext_arg = ext if isinstance(ext, int) else list(ext)
-        if case["reuse"] == "randomize":
-            mu.randomize(Nr, Nt, K, ext_arg)
-        else:
-            warm = _randc(np.random.RandomState(case["ext_seed"] + 1), n,
-                          n + r_tot)
-            mu.init_from_channel_matrix(warm, Nr, Nt, K, ext_arg)
-        with np.errstate(all="ignore"):
-            obj.block_diagonalize_no_waterfilling(mu)
+        if not warmed:
+            warm_run(0, ns_cap=case.get("num_streams")
+                     if metric in ("naive", "fixed") else None)
         mu.init_from_channel_matrix(big.copy(), Nr, Nt, K, ext_arg)
         if late:
             # ... and the sweep assigns the attributes between two runs
@@ -534,7 +567,10 @@ def _check_extint(case, ctx):
         if (Mk.ndim != 2 or Wk.ndim != 2 or Mk.shape[0] != n or
                 Wk.shape[1] != N or not 1 <= nsk <= N or
                 Mk.shape[1] != nsk or Wk.shape[0] != nsk or
-                nsk != Ns_all[k]):
+                nsk != Ns_all[k] or
+                # documented: "1D numpy array of ints" (callers size and
+                # slice arrays with the counts)
+                not isinstance(Ns_all[k], (int, np.integer))):
             raise Violation("ext_stream_counts",
                             "user %d: Ns=%r precoder %r filter %r (N=%d)" %
                             (k, Ns_all[k], Mk.shape, Wk.shape, N), tk)
